@@ -36,6 +36,16 @@ class BoundExceeded(Exception):
     pass
 
 
+class X87Overflow(Unmodelled):
+    """More than 8 values pending on the x87 register stack: the next load yields the indefinite NaN."""
+    pass
+
+
+class X87Underflow(Unmodelled):
+    """The code pops an x87 value it never produced (a consumed/duplicated-value accounting bug)."""
+    pass
+
+
 GPR64 = ["rax", "rbx", "rcx", "rdx", "rsi", "rdi", "rbp", "rsp", "r8", "r9", "r10", "r11", "r12",
          "r13", "r14", "r15"]
 REGMAP = {}
@@ -298,6 +308,7 @@ class State:
         self.done = False
         self.steps = 0
         self.dead = False
+        self.stopped = False
         self.wild = False
         self.x87_overflowed = False
 
@@ -363,6 +374,8 @@ class State:
             seen.add(i)
             if e.eq(target):
                 return True
+            if z3.is_app_of(e, z3.Z3_OP_SELECT):
+                continue        # a value LOADED from memory is opaque (an incoming pointer argument on the stack)
             todo.extend(e.children())
         return False
 
@@ -1110,6 +1123,11 @@ class Machine:
         ev = Event("call", target=tgt, name=name, regs=dict(s.regs), xmm=dict(s.xmm), st=list(s.st),
                    state=s.copy(), ip=s.ip)
         s.events.append(ev)
+        lim = getattr(self, "stop_after", {}).get(name)
+        if lim is not None and sum(1 for e in s.events if e.kind == "call" and e.name == name) >= lim:
+            s.done = True
+            s.stopped = True
+            return []
         if name is not None and self.prog.funcs.get(name) is not None and name in getattr(self, "inline", ()):
             # inline a function defined in this file: push return address, continue there
             s.regs["rsp"] = simp(s.regs["rsp"] - bv(8))
@@ -1133,11 +1151,18 @@ class Machine:
                 s.st.append(z3.fpBVToFP(nb, X87))
             # memory: the callee may write through any pointer it was given; we havoc the heap
             # (everything that is not in the private frame map).
-            if s.spilled:
-                raise Unmodelled("external call after frame spill (memory havoc would lose the frame)")
-            s.hlog = []
-            s.heap = z3.Array("heap_after_call!%d" % self.nfresh, z3.BitVecSort(64), z3.BitVecSort(8))
+            newheap = z3.Array("heap_after_call!%d" % self.nfresh, z3.BitVecSort(64), z3.BitVecSort(8))
             self.nfresh += 1
+            if s.spilled:
+                # frame lives in the array: the callee may not touch the caller's frame, so copy it over
+                lo = s._stack_off(s.regs["rsp"])
+                if lo is None or lo < -65536:
+                    raise Unmodelled("external call after frame spill with symbolic/huge rsp")
+                for off in range(lo, 136):
+                    a = simp(self.RSP0 + bv(off))
+                    newheap = z3.Store(newheap, a, z3.Select(s.heap, a))
+            s.hlog = []
+            s.heap = newheap
         ev.ret_rax = s.regs["rax"]
         s.ip += 1
         return []
@@ -1303,16 +1328,12 @@ class Machine:
     # ---- x87 -----------------------------------------------------------------------------
     def _push87(self, s, v):
         if len(s.st) >= 8:
-            s.events.append(Event("x87overflow"))
-            # stack fault: result is the indefinite QNaN
-            s.st = s.st[1:] + [z3.fpNaN(X87)]
-            s.x87_overflowed = True
-        else:
-            s.st.append(v)
+            raise X87Overflow("x87 register stack overflow: a 9th value is loaded while 8 are pending (result becomes NaN)")
+        s.st.append(v)
 
     def _pop87(self, s):
         if not s.st:
-            raise Unmodelled("x87 stack underflow (value popped that this function did not push)")
+            raise X87Underflow("x87 stack underflow (value popped that this function did not push)")
         return s.st.pop()
 
     def i_fldt(self, s, ins):
